@@ -197,11 +197,15 @@ func (c *Ctx) ruleIntStringShift(rule string) {
 					}
 					continue
 				}
-				if be.Op != token.GTR || !rejects(s.Body) {
+				if (be.Op != token.GTR && be.Op != token.LSS) || !rejects(s.Body) {
 					continue
 				}
-				a, ok1 := eval(be.X)
-				b, ok2 := eval(be.Y)
+				lhs, rhs := be.X, be.Y
+				if be.Op == token.LSS { // a < b  ≡  b > a
+					lhs, rhs = rhs, lhs
+				}
+				a, ok1 := eval(lhs)
+				b, ok2 := eval(rhs)
 				if !ok1 || !ok2 {
 					R.Unk(rule, con("E>=0 rejection"), P.Pos(s), "rejecting comparison not linear in I, F, E: "+exprStr(s.Cond))
 					continue
@@ -210,7 +214,7 @@ func (c *Ctx) ruleIntStringShift(rule string) {
 					// digit-count guard  G > maxDigits
 					guard = true
 					gPos, gZero := a, a
-					if id, ok := unparen(be.X).(*ast.Ident); ok && info.Uses[id] == digitsObj && hasZeroCase {
+					if id, ok := unparen(lhs).(*ast.Ident); ok && info.Uses[id] == digitsObj && hasZeroCase {
 						gZero = digitsZero
 					}
 					d1 := gPos.add(I, -1).add(E, -1)                     // G - (I+E), case I > 0
@@ -286,11 +290,15 @@ func (c *Ctx) ruleIntStringShift(rule string) {
 			if !ok1 || !ok2 {
 				continue
 			}
+			op := be.Op
+			if bc, ac := b.isConst(), a.isConst(); ac && !bc { // constant on the left: flip
+				a, b, op = b, a, flipOp(op)
+			}
 			d := a.add(b, -1)
-			if be.Op == token.GTR && d.add(F, -1).isConst() && d.add(F, -1).c == 0 {
+			if op == token.GTR && d.add(F, -1).isConst() && d.add(F, -1).c == 0 {
 				fracRej = true
 			}
-			if be.Op == token.LSS && d.add(I, -1).add(E, -1).isConst() && d.add(I, -1).add(E, -1).c == 0 {
+			if op == token.LSS && d.add(I, -1).add(E, -1).isConst() && d.add(I, -1).add(E, -1).c == 0 {
 				idxRej = true
 			}
 		case *ast.ForStmt:
